@@ -1209,8 +1209,34 @@ func (w *wnWorld) cpin(o gosim.Op) {
 	if o.Arg(3)%2 == 1 {
 		first, second = b, a
 	}
+	dbg := r.Plan.P("dbg", 0) == 1
+	if dbg {
+		r.Logf("   pins before %s", wnFmtDiff(wnPinDiff(nil, before.Pin)))
+		r.Logf("   pins mid    %s", wnFmtDiff(wnPinDiff(nil, mid.Pin)))
+		for _, g := range []*wnFile{a, b} {
+			cs := ""
+			for _, c := range g.chunks {
+				cs += c[:8] + " "
+			}
+			r.Logf("   file %d chunks %s", g.id, cs)
+		}
+	}
 	for _, f := range []*wnFile{first, second} {
 		if code := w.n0.UnpinAPI(f.ref); code != 200 {
+			if dbg {
+				r.Logf("   pins now    %s", wnFmtDiff(wnPinDiff(nil, w.dump().Pin)))
+			}
+			// unless a collection ran meanwhile (unpinning the first file made it
+			// collectable; what an eviction does to shared chunks is C12's subject)
+			w.quiesce()
+			w.mu.Lock()
+			ran := w.collected != collected0
+			a.uncertain, b.uncertain = true, true
+			w.mu.Unlock()
+			if ran {
+				r.Count("c15_unpin_failed_after_collection")
+				return
+			}
 			r.Violate("unpin-failed", "unpin of file %d (pinned concurrently with another file, all its chunks stored) returned %d", f.id, code)
 		}
 	}
